@@ -27,9 +27,8 @@ def rows_run(ctx, module, rows_file, name):
     return int(m.group(1)), int(m.group(2)), re.sub(r"\s+", " ", m.group(4))[:700]
 
 
-def hist_classes(ctx):
-    """ParseClasses.tla, HistRows: code histograms with the accuracy log the table builder must pick; the compressor is
-    driven through the public Matcher trait with a valid parse that has exactly that histogram.  Returns (report, rows file)."""
+def hist_classes_file(ctx):
+    """ParseClasses.tla, HistRows: TLC writes the code-histogram classes (with the accuracy log the table builder must pick)."""
     mod = ctx.path("MC_ParseClasses.tla")
     with open(mod, "w") as f:
         f.write("---- MODULE MC_ParseClasses ----\nEXTENDS ParseClasses\n====\n")
@@ -40,6 +39,13 @@ def hist_classes(ctx):
     hc = ctx.path("hist_classes.ndjson")
     if not os.path.exists(hc):
         raise ToolError("ParseClasses wrote no histogram classes")
+    return hc, res
+
+
+def hist_classes(ctx):
+    """The compressor is driven through the public Matcher trait with a valid parse that has exactly the histogram of each
+    class of ParseClasses.tla (HistRows).  Returns (report, rows file)."""
+    hc, res = hist_classes_file(ctx)
     rows = ctx.path("written_rows.ndjson")
     rep = ctx.path("seqhist.json")
     vh(ctx, ["seqhist", ctx.seed, hc, rows, rep, ctx.tier], timeout=7200)
